@@ -643,7 +643,23 @@ pub struct TraitCase {
 
 pub fn check_traits(_ctx: &Ctx, c: &TraitCase, acc: &mut Acc) -> Result<(), Fail> {
     let m = c.spec.msg();
-    let p = from_msg(&m);
+    let mut p = from_msg(&m);
+    // leave some option numbers behind with an empty value list (what
+    // clear_option does): they hold no option and must not disturb the views
+    let cleared: Vec<u16> = match c.new_len % 4 {
+        0 => vec![],
+        1 => vec![0],
+        2 => vec![m.options.first().map(|o| o.0.saturating_sub(1)).unwrap_or(5), 65535],
+        _ => m.options.iter().map(|o| o.0.wrapping_add(1)).take(2).collect(),
+    };
+    for n in &cleared {
+        if m.options.iter().any(|o| o.0 == *n) {
+            continue;
+        }
+        p.add_option(CoapOption::from(*n), vec![1, 2, 3]);
+        p.clear_option(CoapOption::from(*n));
+        acc.class("cleared-option-number-present");
+    }
     let want = (m.code, m.options.clone(), m.payload.clone());
     for (ver, view) in [("0.2", v02::read_view(&p)), ("0.3", v03::read_view(&p))] {
         ensure!(
